@@ -105,6 +105,11 @@ func (s *Scheme) handleMPC(msg *IncMessage) {
 	}
 
 	if len(digest) > 0 {
+		// Acknowledgements carry a digest as computed by hash()
+		if len(digest) != sha256.Size {
+			s.Logger.Warnf("Received acknowledgement from %d with a digest of %d bytes", msg.Source, len(digest))
+			return
+		}
 		s.handleAck(msg, round, sender, digest, handleRBC)
 	} else {
 		s.handleRBC(msg, rbcEncoding, classifier, handleRBC)
@@ -922,6 +927,10 @@ func (r rbcEncoding) Payload() []byte {
 }
 
 func (r rbcEncoding) Ack() (digest []byte, sender uint16, msgRound uint8, err error) {
+	if len(r) == 0 {
+		return nil, 0, 0, fmt.Errorf("message is empty")
+	}
+
 	// In ack messages, the MSB of the first byte is 0
 	if r[0]>>7 != 0 {
 		return nil, 0, 0, nil
